@@ -97,27 +97,15 @@ class LinkedUnitCollection(dict):
         """During the tracking of the region the information about searches
         that matched an atom twice but with a negated multiplier are stored.
         """
+        # An edge from cell u to cell v that was found with the multiplier m
+        # stays within the region if v == u + m. If the matched atom already
+        # belongs to some other cell, the region has wrapped around a periodic
+        # boundary: the difference v - u - m tells in which directions.
         G = self._search_graph
-        dir_vectors = np.array([[1, 0, 0], [0, 1, 0], [0, 0, 1]])
         directions = set([0, 1, 2])
-        for node in G.nodes():
-            node_edges = G.in_edges(node, data=True)
-            dir_to_remove = set()
-            for direction in directions:
-                dir_vector = dir_vectors[direction]
-                positive = False
-                negative = False
-                for edge in node_edges:
-                    multiplier = edge[2]["multiplier"]
-                    if np.array_equal(multiplier, dir_vector):
-                        positive = True
-                    if np.array_equal(multiplier, -dir_vector):
-                        negative = True
-                    if positive and negative:
-                        break
-                if positive and negative:
-                    dir_to_remove.add(direction)
-            directions -= dir_to_remove
+        for source, target, data in G.edges(data=True):
+            winding = np.array(target) - np.array(source) - np.array(data["multiplier"])
+            directions -= set(np.nonzero(winding)[0].tolist())
 
         connected_directions = np.array([True, True, True])
         connected_directions[list(directions)] = False
